@@ -159,7 +159,7 @@ class Nest:
             return None
         return next_model
 
-    def iteration(self, inner, stops, models=(), params=None, max_paths=400, opaque=(), havoc=None, seq_sources=()):
+    def iteration(self, inner, stops, models=(), params=None, max_paths=5000, opaque=(), havoc=None, seq_sources=()):
         """Symbolic execution of ONE iteration of loop `inner` (a loop record): the function is executed from its entry with
         symbolic parameters, every enclosing loop is entered once with a fresh symbolic item `item<header>`, loops that do
         not enclose `inner` are skipped (their iterator is exhausted), and from the start of inner's body execution runs
@@ -210,7 +210,7 @@ class Nest:
                     self._fill[d['header']] = True
         return self._fill
 
-    def reach(self, bb, models=(), opaque=(), max_paths=400, seq_sources=()):
+    def reach(self, bb, models=(), opaque=(), max_paths=5000, seq_sources=()):
         """Symbolic execution from the function entry to the entry of block bb: loops that enclose bb are entered once with a
         fresh symbolic item, every other loop is skipped.  Returns (sx, [Outcome stopped at bb])."""
         from .sym import SymEx, SYM, STRUCT
